@@ -158,6 +158,7 @@ type Exec struct {
 	poison     func()
 	poisonOnce sync.Once
 	Poisoned   atomic.Bool
+	MidPoisons atomic.Int64  // argument calls of a BareMix program that ran (each overwrites the argument variables before it)
 	dummies    []interface{} // pointers handed out by PoisonPtr
 	late       []string
 	seen       [][2]uint64
@@ -704,6 +705,17 @@ func A[T any](x *Exec, site int, v T) T {
 	x.mu.Lock()
 	x.args = append(x.args, ev)
 	x.mu.Unlock()
+	return v
+}
+
+// AP is an argument expression that is a call (Bare programs with BareMix):
+// the call overwrites the argument variables that precede it in the directive.
+func AP[T any](x *Exec, site int, v T, mut func()) T {
+	if x == nil || x.Quiet {
+		return v
+	}
+	mut()
+	x.MidPoisons.Add(1)
 	return v
 }
 
